@@ -28,6 +28,48 @@ def make_prior(spec):
     raise ValueError(fam)
 
 
+def derive(p, spec, d):
+    """Priors that were not built by their own constructor call (review item 4)."""
+    import pickle
+    from autofit.mapper.prior.abstract import Prior
+    how = d["how"]
+    if how == "with_limits":                       # instance method: keeps the message of p
+        return p.with_limits(unhex(d["a"]), unhex(d["b"]))
+    if how == "cls_with_limits":                   # GaussianPrior / LogUniformPrior override it as a classmethod
+        return type(p).with_limits(unhex(d["a"]), unhex(d["b"]))
+    if how == "new":
+        return p.new()
+    if how == "from_dict":
+        return Prior.from_dict(p.dict())
+    if how == "from_config_dict":                  # the shape prior config files have: no id
+        dd = {k: v for k, v in p.dict().items() if k != "id"}
+        return Prior.from_dict(dd)
+    if how == "pickle":
+        return pickle.loads(pickle.dumps(p))
+    if how == "copy":
+        import copy
+        return copy.deepcopy(p)
+    raise ValueError(how)
+
+
+def describe(p):
+    out = {"cls": type(p).__name__, "lo": hexf(p.lower_limit), "hi": hexf(p.upper_limit)}
+    if type(p).__name__ in ("GaussianPrior", "LogGaussianPrior"):
+        out["mean"], out["sigma"] = hexf(p.mean), hexf(p.sigma)
+    return out
+
+
+def unit_arg(o):
+    u = unhex(o["u"])
+    ut = o.get("ut")
+    if ut == "int":
+        return int(u)
+    if ut == "np":
+        import numpy as np
+        return np.float64(u)
+    return u
+
+
 def guarded(f):
     try:
         v = f()
@@ -39,7 +81,10 @@ def guarded(f):
 def run_obs(p, o):
     t = o["t"]
     if t == "value":
-        return guarded(lambda: p.value_for(unhex(o["u"]), ignore_prior_limits=bool(o["ignore"])))
+        if o.get("kw", True):
+            return guarded(lambda: p.value_for(unit_arg(o), ignore_prior_limits=bool(o["ignore"])))
+        assert not o["ignore"]
+        return guarded(lambda: p.value_for(unit_arg(o)))          # default argument: limits enforced
     if t == "raw":
         return guarded(lambda: p.message.value_for(unhex(o["u"])))
     if t == "rt":
@@ -61,7 +106,11 @@ def run_obs(p, o):
     if t == "random":
         rr = oracle.first_random(o["seed"])
         random.seed(o["seed"])
-        r = guarded(lambda: p.random(lower_limit=unhex(o["l"]), upper_limit=unhex(o["u"])))
+        if o.get("kw", True):
+            r = guarded(lambda: p.random(lower_limit=unhex(o["l"]), upper_limit=unhex(o["u"])))
+        else:
+            assert unhex(o["l"]) == 0.0 and unhex(o["u"]) == 1.0
+            r = guarded(lambda: p.random())                        # default arguments
         r["r"] = hexf(rr)
         return r
     raise ValueError(t)
@@ -71,10 +120,13 @@ def run_case(c):
     if c["kind"] == "prior":
         try:
             p = make_prior(c["prior"])
+            if c.get("derived"):
+                p = derive(p, c["prior"], c["derived"])
         except BaseException as e:  # noqa
             return {"ctor_exc": exc_name(e), "msg": str(e)[:160]}
         res = [run_obs(p, o) for o in c["obs"]]
-        return {"obs": res, "table": oracle.tables_for_prior(c["prior"], c["obs"], res)}
+        return {"obs": res, "described": describe(p),
+                "table": oracle.tables_for_prior(c.get("msg_prior") or c["prior"], c["obs"], res, gate=c.get("gate_prior"))}
     if c["kind"] == "vector":
         try:
             priors = [make_prior(s) for s in c["priors"]]          # creation order = id order
@@ -108,7 +160,7 @@ def main():
         except BaseException as e:  # noqa
             import traceback
             out.append({"exc": exc_name(e), "msg": traceback.format_exc()[-600:]})
-    json.dump({"results": out}, open(sys.argv[2], "w"))
+    json.dump({"results": out, "versions": oracle.versions()}, open(sys.argv[2], "w"))
 
 
 main()
